@@ -82,7 +82,8 @@ class Ctx:
         with open(wpath, "wb") as f:
             f.write(wasm_bytes)
         cpath = os.path.join(d, name + ".c")
-        r = subprocess.run([exe] + list(opts) + [wpath, cpath], capture_output=True, timeout=60, cwd=d)
+        # fresh heap memory handed to the translator is filled with 0xA5 (glibc MALLOC_PERTURB_): state the reader forgets to initialise shows up
+        r = subprocess.run([exe] + list(opts) + [wpath, cpath], capture_output=True, timeout=60, cwd=d, env=dict(os.environ, MALLOC_PERTURB_="165"))
         if r.returncode != 0 or not os.path.exists(cpath):
             return None, r
         return d, r
